@@ -373,4 +373,8 @@ CaseStr(k) == LET hdr == HdrOf(k.nfeat, k.opt, k.lev, k.ord, k.err)
                  \o "|" \o k.err
 EmitCase == pc = "classify" => PrintT(<<"CASE", CaseStr(c)>>)
 GenOnly == pc = "classify"
+\* ---- liveness (checked by PinParse_live.cfg): under weak fairness of the next-state action every behaviour comes to rest
+\* in a state without successor -- the modelled procedure terminates for every input, schedule and fault inside the bounds
+FairSpec == Spec /\ WF_vars(Next)
+Halts == <>[](~ENABLED Next)
 =============================================================================
